@@ -30,7 +30,52 @@ Edge = Tuple[int, int, str]
 # canonical atoms and guard edges
 
 
+class _NoWalrus(ast.NodeTransformer):
+    def visit_NamedExpr(self, n):
+        return self.visit(n.value)
+
+
+def strip_walrus(e: ast.AST) -> ast.AST:
+    """``(m := f(x)) is None`` -> ``f(x) is None`` (for predicates about what is tested; the binding is seen by the
+    reaching-definition / single-binding machinery separately)"""
+    if not any(isinstance(x, ast.NamedExpr) for x in ast.walk(e)):
+        return e
+    import copy as _copy
+    # keep the identity of the wrapped value nodes (rules compare call nodes by identity)
+    class T(ast.NodeTransformer):
+        def visit_NamedExpr(self, n):
+            return self.visit(n.value)
+    top = _copy.copy(e)
+    for fld, val in ast.iter_fields(e):
+        if isinstance(val, list):
+            setattr(top, fld, [T().visit(_shallow(x)) if isinstance(x, ast.AST) else x for x in val])
+        elif isinstance(val, ast.AST):
+            setattr(top, fld, T().visit(_shallow(val)))
+    return T().visit(top) if isinstance(top, ast.NamedExpr) else top
+
+
+def _shallow(n: ast.AST) -> ast.AST:
+    """copy of the spine down to (not including) NamedExpr values, so that NodeTransformer does not edit the tree"""
+    import copy as _copy
+    if isinstance(n, ast.NamedExpr):
+        return _copy.copy(n)
+    if not any(isinstance(x, ast.NamedExpr) for x in ast.walk(n)):
+        return n
+    c = _copy.copy(n)
+    for fld, val in ast.iter_fields(n):
+        if isinstance(val, list):
+            setattr(c, fld, [_shallow(x) if isinstance(x, ast.AST) else x for x in val])
+        elif isinstance(val, ast.AST):
+            setattr(c, fld, _shallow(val))
+    return c
+
+
 def canon_atom(e: ast.AST) -> Tuple[ast.AST, bool]:
+    a, flip = _canon_atom0(e)
+    return strip_walrus(a), flip
+
+
+def _canon_atom0(e: ast.AST) -> Tuple[ast.AST, bool]:
     """(positive form, flipped) of an atomic test: ``a != b`` -> (``a == b``, True),
     ``x not in y`` -> (``x in y``, True), ``x is not y`` -> (``x is y``, True)."""
     flip = False
@@ -427,6 +472,8 @@ class RegexEnv:
 def group_rx(pattern, index: int) -> _rx.Rx:
     """Language of the ``index``-th capturing group of ``pattern`` (as written;
     the context of the group is ignored)."""
+    if index == 0:
+        return _rx.Rx.from_pattern(pattern)  # group 0 is the whole match
     sre_parse = _rx.sre_parse
     tree = sre_parse.parse(pattern)
     found: List[object] = []
@@ -1194,6 +1241,21 @@ def norm_func(repo: Repo, fi: FuncInfo, depth: int = 3, no_inline: Optional[Set[
         return out
 
     node.body = _thread(node.body)
+
+    # `except Exception as e: if not isinstance(e, X): raise` + rest   ==   `except X as e:` + rest   (last handler only)
+    for t_ in [x for x in q.walk_body(node) if isinstance(x, ast.Try)]:
+        if not t_.handlers:
+            continue
+        h_ = t_.handlers[-1]
+        if h_.name and h_.type is not None and q.dotted(h_.type) in ("Exception", "BaseException") and len(h_.body) >= 2 and isinstance(h_.body[0], ast.If) and not h_.body[0].orelse:
+            g_ = h_.body[0]
+            tst = g_.test
+            if (isinstance(tst, ast.UnaryOp) and isinstance(tst.op, ast.Not) and isinstance(tst.operand, ast.Call) and q.dotted(tst.operand.func) == "isinstance"
+                    and len(tst.operand.args) == 2 and q.dotted(tst.operand.args[0]) == h_.name and q.dotted(tst.operand.args[1])
+                    and len(g_.body) == 1 and isinstance(g_.body[0], ast.Raise) and (g_.body[0].exc is None or q.dotted(g_.body[0].exc) == h_.name)):
+                h_.type = tst.operand.args[1]
+                h_.body = h_.body[1:]
+                changed_any = True
     # private same-file helpers that are still called but could not be inlined (early returns inside loops, recursion,
     # generators, ...): rules must not turn "statement not found here" into a violation for such a function
     opaque = []
@@ -1357,6 +1419,8 @@ def group_index(e: ast.AST) -> Optional[int]:
         return None
     if isinstance(e, ast.Call) and q.call_attr(e) == "group" and len(e.args) == 1 and isinstance(e.args[0], ast.Constant):
         return e.args[0].value
+    if isinstance(e, ast.Call) and q.call_attr(e) == "group" and not e.args and not e.keywords:
+        return 0
     if isinstance(e, ast.Subscript) and isinstance(e.slice, ast.Constant) and type(e.slice.value) is int:
         return e.slice.value
     return None
